@@ -180,6 +180,22 @@ def cases(draw, tier):
         inner = draw(small_prog(tier, roots=(1, 2)))
         if draw(st.integers(0, 3)) == 0:
             inner['roots'][-1]['steps'].append({'op': 'raise', 'eid': 77, 'cls': 'V'})
+        elif draw(st.integers(0, 2)) == 0:
+            # the nested simulation ends (at quiescence, or by a failure) with activities that still hold and wait for
+            # something: whatever becomes of them, it does not happen in the enclosing simulation
+            what = draw(st.sampled_from(['res', 'lock', 'queue']))
+            hold = {'res': {'op': 'borrow', 'r': 'R', 'amounts': {'a': 1}, 'body': [{'op': 'eternity'}]},
+                    'lock': {'op': 'lock', 'i': 0, 'body': [{'op': 'eternity'}]},
+                    'queue': {'op': 'eternity'}}[what]
+            want = {'res': {'op': 'borrow', 'r': 'R', 'amounts': {'a': 1}, 'body': [{'op': 'mark', 'v': 'mine'}, {'op': 'sleep', 'd': 1}]},
+                    'lock': {'op': 'lock', 'i': 0, 'body': [{'op': 'mark', 'v': 'mine'}, {'op': 'sleep', 'd': 1}]},
+                    'queue': {'op': 'qget', 's': 0}}[what]
+            inner = {'start': draw(st.sampled_from([0, 3])), 'roots': [
+                {'name': 'ih', 'steps': [hold]},
+                {'name': 'iw', 'steps': [{'op': 'sleep', 'd': draw(st.sampled_from([0.5, 1]))}, want, {'op': 'sleep', 'd': 1}, {'op': 'mark', 'v': 'on'}]}],
+                'objs': {'locks': 1, 'queues': 1, 'resources': [{'kind': 'res', 'name': 'R', 'levels': {'a': 1}}]}}
+            if draw(st.integers(0, 2)) == 0:
+                inner['roots'].append({'name': 'ix', 'steps': [{'op': 'sleep', 'd': 2}, {'op': 'raise', 'eid': 78, 'cls': 'K'}]})
         ri = draw(st.integers(0, len(outer['roots']) - 1))
         pos = draw(st.integers(0, len(outer['roots'][ri]['steps'])))
         return {'kind': 'nesting', 'outer': outer, 'inner': inner, 'root': ri, 'pos': pos}
@@ -435,6 +451,14 @@ class C15(Check):
                     d, nlog[d:d + 1], alone[d:d + 1], nerr, want_err))
             out.nontrivial = pos > 0 or ri > 0
             out.features.add('inner_failed' if want_err else 'inner_ok')
+            # nothing of the nested simulation runs once its run() has returned
+            for inner_it, seen in getattr(it_o, 'nested_objs', ()):
+                late = [e for e in inner_it.log[seen:] if e[3] in ('ok', 'got', 'enter', 'mark', 'end', 'start', 'request', 'get_begin')]
+                if late:
+                    out.fail('nesting', 'inner_activity_ran_after_its_simulation', 'after the nested run() had returned, %s of the nested '
+                             'simulation logged %r at outer time %r' % (late[0][1], late[0][3], late[0][4]))
+                if any(r['name'] == 'ih' for r in inner['roots']):
+                    out.features.add('inner_ends_with_blocked_activities')
 
     def threads(self, out, case):
         threads = case['threads']
